@@ -2,10 +2,12 @@
 // package: v4/cdcn
 // function: cdcn.(*scannerClass_).MatchToken with the string_ / rune_ / escape_ patterns, and the ParseSource path behind them
 // bound: (a) every string of length <= 3 over a 14-character alphabet (letters, double and single quote, backslash, space, tab, newline, NUL, bell, U+00E9, U+1F600) = 2955 strings x 5 right contexts; every rune in 0..0x2FF plus 8 astral / special runes; (b) all 12 token patterns x 30 x 30 two-part probe texts: no pattern matches the empty string; exhaustive over this finite domain
+// bound-thorough: as above with strings of length <= 4 (41 371 strings) and every rune below 0x3000
 // why: token acceptance is decided by regular expressions (package regexp); the contracts treat regexp matching as an assumed library function, so which prefix a pattern matches cannot be stated in them
 package cdcn
 
 import (
+	"os"
 	stc "strconv"
 	tes "testing"
 
@@ -27,7 +29,13 @@ func TestVerifBounded(t *tes.T) {
 	var alphabet = []string{"a", "n", "x", "0", "\"", "'", "\\", " ", "\t", "\n", "\x00", "\a", "é", "\U0001F600"}
 	var contents = []string{""}
 	var frontier = []string{""}
-	for length := 1; length <= 3; length++ {
+	var maxLength = 3
+	var maxRune = rune(0x300)
+	if os.Getenv("VERIF_BOUNDED_TIER") == "thorough" {
+		maxLength = 4
+		maxRune = 0x3000
+	}
+	for length := 1; length <= maxLength; length++ {
 		var next []string
 		for _, prefix := range frontier {
 			for _, c := range alphabet {
@@ -58,7 +66,7 @@ func TestVerifBounded(t *tes.T) {
 		}
 	}
 	var runes []rune
-	for r := rune(0); r < 0x300; r++ {
+	for r := rune(0); r < maxRune; r++ {
 		runes = append(runes, r)
 	}
 	runes = append(runes, 0x2028, 0xD7FF, 0xE000, 0xFFFD, 0xFFFF, 0x10000, 0x1F600, 0x10FFFF)
